@@ -1,0 +1,8 @@
+//go:build verif
+
+package common
+
+// VerifClipResults exposes clipResults.
+func VerifClipResults(minTTL uint8, results []*ProbeResponse) []*ProbeResponse {
+	return clipResults(minTTL, results)
+}
